@@ -146,15 +146,24 @@ def refine_counterexample(cfg, cand):
     xi = [k for k, (name, kind, v) in enumerate(inputs) if name.startswith("x") and kind == "real"]
     if len(xi) != len(dom):
         return
-    n = {1: 4001, 2: 81, 3: 21, 4: 11}[len(dom)]
+    pgrid = {"rho1": [0.05, 0.1, 0.3, 0.5, 0.8, 1.0], "rho2": [0.05, 0.1, 0.3, 0.5, 0.8, 1.0], "tmax": [0.0, 0.2, 0.5, 0.8, 1.0]}
+    pidx = [(k, name.split("!")[0]) for k, (name, kind, v) in enumerate(inputs) if kind == "real" and name.split("!")[0] in pgrid]
+    n = {1: 4001 if not pidx else 201, 2: 81, 3: 21, 4: 11}[len(dom)]
     axes = [[lo + (hi - lo) * k / (n - 1) for k in range(n)] for lo, hi in dom]
+    pvals = [[None]] if not pidx else list(itertools.product(*[pgrid[nm] for _, nm in pidx]))
+    # first the solver's own parameter values, then the parameter grid
     count = 0
-    for pt in itertools.product(*axes):
-        alt = [list(i) for i in inputs]
-        for k, x in zip(xi, pt):
-            f = Fraction(float(x))
-            alt[k][2] = [str(f.numerator), str(f.denominator)]
-        yield alt
-        count += 1
-        if count > 20000:
-            return
+    for pv in [None] + (pvals if pidx else []):
+        for pt in itertools.product(*axes):
+            alt = [list(i) for i in inputs]
+            for k, x in zip(xi, pt):
+                f = Fraction(float(x))
+                alt[k][2] = [str(f.numerator), str(f.denominator)]
+            if pv is not None:
+                for (k, nm), v in zip(pidx, pv):
+                    f = Fraction(float(v))
+                    alt[k][2] = [str(f.numerator), str(f.denominator)]
+            yield alt
+            count += 1
+            if count > 60000:
+                return
